@@ -4,8 +4,6 @@
 package zz_pipeline
 
 import (
-	"sync"
-
 	"github.com/Azbesciak/RealDecisionMaker/lib/model"
 	rt "github.com/Azbesciak/RealDecisionMaker/lib/zz_verifrt"
 )
@@ -54,49 +52,11 @@ func HC10_no_shared_writes() {
 		rt.Assert("C10.identical-requests-same-response", rt.DeepEqual(out.Choice, out2.Choice))
 	}
 	if rt.RaceMode() {
-		c10race(c, how, out)
+		RaceRun(func(int) *model.DecisionMaker {
+			d := c.Build("")
+			c10break(d, how)
+			return d
+		}, 1, out)
 	}
 }
 
-// c10race is the native confirmation run (never executed symbolically): the same request from
-// 8 goroutines against the one shared set of registries, under the race detector.
-func c10race(c StdChoice, how string, sequential *Outcome) {
-	var wg sync.WaitGroup
-	var mu sync.Mutex
-	same := true
-	reqs := make([]*model.DecisionMaker, 8*50)
-	for i := range reqs {
-		reqs[i] = c.Build("")
-		c10break(reqs[i], how)
-	}
-	for g := 0; g < 8; g++ {
-		wg.Add(1)
-		go func(g int) {
-			defer wg.Done()
-			for i := 0; i < 50; i++ {
-				dm := reqs[g*50+i]
-				var choice *model.DecisionMakerChoice
-				panicked := false
-				func() {
-					defer func() {
-						if e := recover(); e != nil {
-							panicked = true
-						}
-					}()
-					choice = dm.MakeDecision(funcs, biasListeners, &biases, rt.Generators)
-				}()
-				ok := panicked == sequential.Panicked
-				if ok && !panicked {
-					ok = rt.DeepEqual(choice, sequential.Choice)
-				}
-				if !ok {
-					mu.Lock()
-					same = false
-					mu.Unlock()
-				}
-			}
-		}(g)
-	}
-	wg.Wait()
-	rt.Assert("C10.concurrent-equals-sequential", same)
-}
